@@ -113,6 +113,10 @@ func (w *slotWorld) strideRule(r *Report, rule string) {
 					}
 					id, ok := x.wireLeafOf(v)
 					if !ok {
+						// the same octets assembled by shifts and ors
+						id, ok = x.wireGroupOf(v)
+					}
+					if !ok {
 						continue
 					}
 					l := x.leaves[id]
